@@ -151,11 +151,16 @@ def register(reg):
     KEEP = "heap_unchanged(%s, %s)" % (LINKS_ATTRS, KS)
     reg.refine("fields.list_field:ListField._validate", "core:Field._validate",
                defs={"accepts_type": (["f", "r"], "typeis(r, 'ref:list|ref:tuple')")}, returns="any", modifies=MOD,
+               invariants={0: {"held-configuration-items-validated-so-far": 'forall("j:int", "implies(0 <= j and j < I and typeis(seq_item(value, j), \'ref:Config\'), cfg_valid(seq_item(value, j)))")',
+                               "nothing-changes": "heap_unchanged()"}},
                ensures={
                    "C06+C13.validating-a-list-changes-no-existing-object": KEEP,
                    "C01.a-typed-list-becomes-a-proxy-of-this-configuration": "implies(truthy(self.field) and not typeis(self.field, 'ref:AnyField') and result is not value,"
                                                                              " exact_class(result, 'ListProxy') and fresh(result) and result.cfg is cfg and result.list_field is self)",
                    "C01.an-untyped-list-is-kept-as-it-is": "implies(not truthy(self.field) or typeis(self.field, 'ref:AnyField'), result is value)",
+                   "C11.every-configuration-item-of-the-list-already-held-is-validated-again":
+                       "implies(truthy(self.field) and not typeis(self.field, 'ref:AnyField') and result is value,"
+                       ' forall("j:int", "implies(0 <= j and j < seq_len(value) and typeis(seq_item(value, j), \'ref:Config\'), cfg_valid(seq_item(value, j)))"))',
                    "C01+C13.only-the-list-this-configuration-already-holds-for-this-field-is-returned-as-it-is":
                        "implies(truthy(self.field) and not typeis(self.field, 'ref:AnyField') and result is value,"
                        " typeis(value, 'ref:ListProxy') and value.cfg is cfg and has(cfg._data, self._key) and get(cfg._data, self._key) is value)",
